@@ -130,6 +130,27 @@ def dst_companion(x: object):
     return zone, map_datetimes(x, rez), map_datetimes(x, mirror)
 
 
+def failed_decode_prelude(cd) -> int:
+    """Up to ~24 FAILED decodes of the class: prefixes of the encoding of a value with every tagged field present.  Used
+    before a property is checked on a fresh value - what happened to earlier messages on a connection (e.g. it was cut)
+    must not influence the next one.  -> number of failed decodes"""
+    from .c19_orders import populated_tree
+    from .refcodec import ref_encode
+
+    try:
+        data = ref_encode(cd, populated_tree(cd, 1, 0))
+    except Exception:
+        return 0
+    n = 0
+    step = max(1, len(data) // 24)
+    for k in range(len(data) - 1, 0, -step):
+        try:
+            decode(cd.cls, data[:k])
+        except Exception:
+            n += 1
+    return n
+
+
 SerialError = kerrors.SerialError
 BufferUnderflow = kerrors.BufferUnderflow
 OutOfBoundValue = kerrors.OutOfBoundValue
